@@ -77,11 +77,14 @@ def strategy_(draw, tier):
         if draw(st.booleans()):
             spec['override'] = draw(st.sampled_from(
                 [p['name'] for p in spec['procs']]))
+        # steps written the old way (a Process subclass overriding is_step)
+        spec['legacy_steps'] = draw(st.integers(0, 2)) == 0
         if shutdown == 'end_pending':
             spec['calls'][-1]['op'] = 'run_for'
             spec['calls'][-1]['force'] = False
         return spec
     spec = draw(struct.histories(viewers=False, residents=True, inc_ok=True,
+                                 replace_ok=True,
                                  max_ticks=4, step_op_ok=True))
     # resident flow steps may be parallel too (they share a layer with a step
     # operator)
@@ -198,7 +201,8 @@ def build_sched(spec, ctx, parallel):
                   'salt': i + 1, 'record': False}
         if parallel and name in spec['parallel']:
             params['_parallel'] = True
-        steps[name] = kit.RecStep(params)
+        cls = kit.RecStepLegacy if spec.get('legacy_steps') else kit.RecStep
+        steps[name] = cls(params)
         flow[name] = []
         topology[name] = {'own': ('own', name), 'shared': ('shared',),
                           'layer': ('layer',)}
